@@ -820,6 +820,37 @@ def long_chain_session(g, nbulk=5):
     return ops
 
 
+def lagged_twins_session(g, proto):
+    """two parsers fed the same calls, the second one two to three calls behind the first, over a stream that redefines
+    a template id (different record size) between two data packets for it: whatever one instance has learnt, decoded
+    or memoised must not reach the other (C06 isolation, C16 same history => same JSON)"""
+    r = g.r
+    e = Exporter(g, proto)
+    x, y = r.sample(e.ids, 2)
+    pks = []
+    for rep in range(r.choice([2, 3])):
+        e.new_def(x, kind="data", unknown=False)
+        if rep == 0 or r.random() < 0.5:
+            e.new_def(y, kind=r.choice(["data", "opts"]), unknown=False)
+            pks.append(e.packet([e.tmpl_set([x])]))
+            pks.append(e.packet([e.tmpl_set([y])]))
+        else:
+            pks.append(e.packet([e.tmpl_set([x])]))
+        pks.append(e.packet([e.data(x, r.choice([2, 3, 5]))]))
+        if r.random() < 0.5:
+            pks.append(e.packet([e.data(y, 2)]))
+    lag = r.choice([2, 3])
+    ops = ops_reset(("P", "Q"))
+    n = len(pks)
+    for i in range(n + lag):
+        if i < n:
+            ops.append(call("P", pks[i]))
+        if 0 <= i - lag < n:
+            ops.append(call("Q", pks[i - lag]))
+    ops.append({"op": "round", "kind": "twins", "a": "P", "b": "Q", "c": ""})
+    return ops
+
+
 def dup_templates_session(g):
     """one template flowset / set that defines the same id more than once among several ids, fed to twin parsers:
     the last definition wins, the reported order is the sent order, and two parsers agree (C06, C16)"""
